@@ -17,7 +17,7 @@ RULE = ("histories of syncs (complete; -S/-B partial; killed after the parity up
         "either holds exactly the bytes of the recorded version or is reported unrecoverable (status:unrecoverable + .unrecoverable "
         "rename + failing exit status); no file is tagged status:recovered with other bytes; files outside the selection or unknown to "
         "the content file are never written. A violation is keyed by a diagnosis of the witness block (state, recorded hash vs "
-        "reference hash of new / old occupant bytes). distinct = (history, damage, filters).")
+        "reference hash of new / old occupant bytes). A quarter of the fix runs get an import directory (-i / --test-import-content) with every version the harness ever wrote. distinct = (history, damage, filters).")
 
 
 def _unmatched(res):
